@@ -62,7 +62,11 @@ func c03e2e(c *wk.Ctx) {
 					c.Viol("C03", idx, "e2e/frame-not-openable", fmt.Sprintf("%d of %d frames written by the client could not be opened by the reference server", bad, bad+frames), nil)
 				}
 				if res.Unfinished > 0 {
-					c.Log.Emit(coreInconclusive("c03e2e: scenario did not finish"))
+					if res.Stalled {
+						c.Viol("C03", idx, "e2e/answers-not-opened", fmt.Sprintf("%d calls never returned and nothing can move although the reference server sealed and sent every answer (auth key id %x): the client does not open what a conformant server seals", res.Unfinished, mtp.AuthKeyID(e.key)), res.Dump)
+					} else {
+						c.Log.Emit(coreInconclusive("c03e2e: scenario did not finish"))
+					}
 				}
 				c.Distinct("e2e", k, frames)
 				e.close()
@@ -128,8 +132,20 @@ func c04e2eCase(c *wk.Ctx, idx int, r *rand.Rand) {
 		in := mtp.Inner{Salt: e.salt(), Session: sess, MsgID: e.srv.NextMsgID(1), SeqNo: 1, Body: refserver.RPCResult(int64(r.Uint64())&^3, le32(0x997275b5))}
 		pad := rbytes(r, (16-(32+len(in.Body))%16)%16)
 		pkt := mtp.Seal(key, in, 8, pad)
-		kind := []string{"bitflip-cipher", "bitflip-msgkey", "bitflip-keyid", "truncate", "truncate-short", "other-key", "garbage", "parity", "declared-len", "empty"}[r.Intn(10)]
+		kind := []string{"bitflip-cipher", "bitflip-msgkey", "bitflip-keyid", "truncate", "truncate-short", "other-key", "garbage", "parity", "declared-len", "empty", "authentic-other-session", "authentic-other-salt", "authentic-replayed"}[r.Intn(13)]
 		switch kind {
+		case "authentic-other-session", "authentic-other-salt":
+			// not altered at all, sealed by the key holder: a packet of another session under the same auth key (an
+			// earlier run of the same application), or under a salt the client does not know. Whatever the client
+			// makes of it, it goes on working.
+			if kind == "authentic-other-session" {
+				in.Session = int64(r.Uint64())
+			} else {
+				in.Salt = int64(r.Uint64())
+			}
+			pkt = mtp.Seal(key, in, 8, pad)
+		case "authentic-replayed":
+			cn.SendRaw(pkt) // and the very same packet once more below
 		case "bitflip-cipher":
 			pkt[24+r.Intn(len(pkt)-24)] ^= 1 << uint(r.Intn(8))
 		case "bitflip-msgkey":
